@@ -152,6 +152,7 @@ class Interp:
         self.pkg, self.fn = pkg, fn
         self.ctx = []            # stack of order contexts: frozenset of origins of the loops we are inside
         self.rebound = []        # per order-dependent loop: the names re-bound in its body
+        self.loop_names = []     # per order-dependent loop: its targets and every name stored in its body
         self.ret = CLEAN
         self.flows = {}
         self.changed_params = False
@@ -554,7 +555,11 @@ class Interp:
         v = self.ev(s.value, env) if s.value is not None else CLEAN
         add = v.origins if v.kind == "TAINT" else frozenset()
         ctx = self.ctx_origins()
-        if ctx and not self.is_constant_like(s.value):
+        # leaving from inside an order-dependent loop: WHICH element triggers it depends on the order, but a returned expression that mentions
+        # neither the loop variables nor anything assigned in the loop is the same whichever element it was (the shape of any() / all())
+        mentioned = {n.id for n in ast.walk(s.value) if isinstance(n, ast.Name)} if s.value is not None else set()
+        loop_names = set().union(*self.loop_names) if self.loop_names else set()
+        if ctx and not self.is_constant_like(s.value) and (mentioned & loop_names):
             add |= ctx
             self.note(ctx, s, "returns from inside the loop (the first element that qualifies wins)")
         elif add:
@@ -577,11 +582,13 @@ class Interp:
         if o:
             self.ctx.append(o)
             self.rebound.append(set())
+            self.loop_names.append({n.id for n in ast.walk(target) if isinstance(n, ast.Name)} | {n.id for st in body for n in ast.walk(st) if isinstance(n, ast.Name) and isinstance(n.ctx, ast.Store)})
         # two rounds so that values assigned late in the body reach its start
         self.block(body, env)
         self.block(body, env)
         if o:
             self.ctx.pop()
+            self.loop_names.pop()
             for name, where in sorted(self.rebound.pop(), key=lambda t: t[0]):
                 self.note(o, where, f"`{name}` re-bound in the loop (its value after the loop is that of the last iteration)")
                 env[name] = join(env.get(name, CLEAN), TAINT(o))
